@@ -45,6 +45,7 @@ type Case struct {
 	IH    *IHCase    `json:"iterhist,omitempty"`
 	AV    *AVCase    `json:"avliter,omitempty"`
 	OS    *OCase     `json:"optslice,omitempty"`
+	Di    *DistCase  `json:"dist,omitempty"`
 	Key   string     `json:"key"`
 }
 
@@ -665,6 +666,25 @@ func run(c *vf.Ctx) {
 		}
 	})
 
+	// ---- parametrised objects: scalar distributions and the caller's parameter objects (dist.go)
+	di := 0
+	enumDistCases(func(cs DistCase) {
+		if !want("dist") {
+			return
+		}
+		r.idx++
+		di++
+		if !c.Mine(r.idx) {
+			return
+		}
+		fails, out := runDistCase(cs)
+		cc := cs
+		r.report(Case{Kind: "dist", Di: &cc}, int64(di), fails, out)
+		if out == "ok" {
+			nontrivial++
+		}
+	})
+
 	// ---- callback interleaving: O2 on one side fired inside every interposable call of O1 on the other
 	if want("interleave") {
 		nontrivial += exploreInterleave(r, thorough)
@@ -770,6 +790,8 @@ func main() {
 				fails, _ = runAVCase(*cs.AV)
 			case "optslice":
 				fails, _ = runOCase(*cs.OS)
+			case "dist":
+				fails, _ = runDistCase(*cs.Di)
 			}
 			for _, f := range fails {
 				if f.key == cs.Key {
